@@ -80,15 +80,17 @@ def run_cli(root, argv, cwd="", clock=None, stdin_text=None, env=None, profile=N
             os.close(fd)
         sys.stdout, sys.stderr, sys.stdin = old_out, old_err, old_in
     with open(out_path, "rb") as f:
-        out = f.read().decode("utf-8", "replace")
+        out_b = f.read()
     with open(err_path, "rb") as f:
-        err = f.read().decode("utf-8", "replace")
+        err_b = f.read()
+    out, err = out_b.decode("utf-8", "replace"), err_b.decode("utf-8", "replace")
     os.unlink(out_path)
     os.unlink(err_path)
     err_c = ANSI.sub("", err)
     kind = "Traceback" if ("Traceback (most recent call last)" in err_c or status == "EXC") else (
         "ERROR" if "ERROR:" in err_c else "none")
-    return {"status": status, "stdout": ANSI.sub("", out), "stderr": err_c, "exc": exc, "stderr_kind": kind}
+    return {"status": status, "stdout": ANSI.sub("", out), "stderr": err_c, "exc": exc, "stderr_kind": kind,
+            "stdout_bytes": out_b if len(out_b) < (64 << 20) else None, "stderr_bytes": err_b if len(err_b) < (64 << 20) else None}
 
 
 def file_digest(path):
